@@ -89,6 +89,9 @@ def _fault_programs(tier: str) -> list[dict[str, Any]]:
             out.append({"kind": "registry", "pid": tp["_pid"]})
     for name in ("conv_relu", "reduce_mean_hw_keepdims", "add_forest", "user_transpose_roundtrip", "residual_add"):
         out.append({"kind": "nhwc", "name": name})
+    for i, name in enumerate(_hand_programs()):
+        for opset in (_HAND_OPSETS if tier == "thorough" or name.startswith("mul_sigmoid") else (_HAND_OPSETS[i % 3],)):
+            out.append({"kind": "hand", "name": name, "opset": opset})
     return out
 
 
@@ -100,7 +103,7 @@ def enumerate_cases(tier: str, seed: int) -> list[dict[str, Any]]:
         cases.append({"key": f"zoo:{name}", "src": "zoo_special", "name": name, "cost": 1.0})
     n_pass = len(interpose.pass_names())
     for pi, prog in enumerate(_fault_programs(tier)):
-        pid = prog.get("pid") or f"nhwc/{prog['name']}"
+        pid = prog.get("pid") or (f"hand/{prog['name']}@opset{prog['opset']}" if prog["kind"] == "hand" else f"nhwc/{prog['name']}")
         for k in range(n_pass):
             for when in ("before", "after"):
                 modes = ["default"] if (tier == "quick" and (k + pi) % 3) else ["default", "strict_env", "strict_arg"]
@@ -225,7 +228,43 @@ def _special(name: str, rng):
     raise ValueError(name)
 
 
+def _hand_programs() -> dict[str, Any]:
+    """Small programs in which a rewriting pass is active and its result is directly a graph output,
+    so that a state only a *later* pass completes is visible when the pipeline stops in between."""
+    import jax
+    import jax.numpy as jnp
+    from jax import lax
+
+    H: dict[str, Any] = {}
+    H["mul_sigmoid_is_output"] = (lambda x: x * jax.nn.sigmoid(x), [(2, 3)])
+    H["mul_sigmoid_and_more"] = (lambda x: (jax.nn.sigmoid(x) * x, jnp.tanh(x) + 1.0), [(2, 3)])
+    H["mul_sigmoid_symbolic"] = (lambda x: x * jax.nn.sigmoid(x), [("B", 3)])
+    H["mul_rsqrt_is_output"] = (lambda x, y: x * lax.rsqrt(jnp.abs(y) + 1.0), [(2, 3), (2, 3)])
+    H["div_sqrt_is_output"] = (lambda x, y: x / jnp.sqrt(jnp.abs(y) + 1.0), [(2, 3), (2, 3)])
+    H["cast_roundtrip_is_output"] = (lambda x: x.astype(jnp.float16).astype(jnp.float32), [(2, 3)])
+    H["reshape_pair_is_output"] = (lambda x: x.reshape(3, 2).reshape(6), [(2, 3)])
+    H["reshape_symbolic_is_output"] = (lambda x: x.reshape(x.shape[0], -1).reshape(x.shape[0], 3, 2), [("B", 2, 3)])
+    H["transpose_pair_is_output"] = (lambda x: jnp.transpose(jnp.transpose(jnp.tanh(x), (1, 0, 2)), (2, 1, 0)), [(2, 3, 4)])
+    H["transpose_reduce_is_output"] = (lambda x: jnp.mean(jnp.transpose(x, (0, 2, 1)), axis=1, keepdims=True), [(2, 3, 4)])
+    H["identity_reshape_is_output"] = (lambda x: jnp.tanh(x).reshape(2, 3), [(2, 3)])
+    H["arange_cast_is_output"] = (lambda x: x + jnp.arange(3).astype(jnp.float32), [(2, 3)])
+    H["not_not_where"] = (lambda x: jnp.where(~(~(x > 0)), x, 0.0), [(2, 3)])
+    H["dead_branch"] = (lambda x: (lambda _unused: jnp.tanh(x))(jnp.exp(x) @ jnp.ones((3, 4), x.dtype)), [(2, 3)])
+    H["cond_with_mul_sigmoid"] = (lambda x: lax.cond(jnp.sum(x) > 0, lambda v: v * jax.nn.sigmoid(v), lambda v: -v, x), [(2, 3)])
+    return H
+
+
+_HAND_OPSETS = (23, 24, 25)
+
+
 def _build_prog(spec: dict[str, Any]) -> programs.Program:
+    if spec["kind"] == "hand":
+        fn, shapes = _hand_programs()[spec["name"]]
+        return programs.Program(
+            pid=f"hand/{spec['name']}@opset{spec['opset']}", family=f"hand/{spec['name']}", make_fn=lambda: fn, specs=lambda: [tuple(sh) for sh in shapes],
+            signature=lambda b: [(tuple((b.get(d, 2) if isinstance(d, str) else d) for d in sh), np.dtype(np.float32)) for sh in shapes],
+            kwargs={"opset": spec["opset"]}, source="hand",
+        )
     if spec["kind"] == "registry":
         return programs.from_registry(registry.by_pid(spec["pid"]))
     from checks import c12
